@@ -13,6 +13,31 @@ pub fn sint(v: u64) -> i64 {
     let s = v as i64;
     s.clamp(-CLAMP, CLAMP)
 }
+/// SCALED RUNS.  A scenario may carry "scale": K.  Every quantity that enters the library (order quantities,
+/// thresholds, replenish amounts, match and amend sizes) is then multiplied by K, and every quantity that
+/// comes out is divided by K before it is logged - it must be an exact multiple.  The recording is thereby in
+/// the small numbers the specification is checked with, while the library computes with 40- to 60-bit values.
+/// A quantity that is not a multiple of K (a wrapped counter, a constant that was added instead of scaled)
+/// is logged as -CLAMP + 7 and fails conformance and the monitors.
+pub static SCALE: std::sync::atomic::AtomicU64 = std::sync::atomic::AtomicU64::new(1);
+pub fn scale() -> u64 {
+    SCALE.load(std::sync::atomic::Ordering::Relaxed)
+}
+/// quantity out of the library
+pub fn sq(v: u64) -> i64 {
+    let k = scale();
+    if k == 1 {
+        sint(v)
+    } else if v % k == 0 {
+        sint(v / k)
+    } else {
+        -CLAMP + 7
+    }
+}
+/// quantity into the library
+pub fn inq(v: u64) -> u64 {
+    v.saturating_mul(scale())
+}
 pub fn sint_usize(v: usize) -> i64 {
     sint(v as u64)
 }
@@ -89,8 +114,8 @@ pub fn order_of(v: &Value) -> OrderType<()> {
     let time_in_force = tif_of(parts.next().unwrap_or("GTC"));
     let p1 = parts.next().unwrap_or("0");
     let p2 = parts.next().unwrap_or("0");
-    let vis = u(v, "vis");
-    let hid = u(v, "hid");
+    let vis = inq(u(v, "vis"));
+    let hid = inq(u(v, "hid"));
     match v.get("kind").and_then(|x| x.as_str()).unwrap_or("Standard") {
         "Iceberg" => OrderType::IcebergOrder { id, price, visible_quantity: vis, hidden_quantity: hid, side, timestamp, time_in_force, extra_fields: () },
         "PostOnly" => OrderType::PostOnly { id, price, quantity: vis, side, timestamp, time_in_force, extra_fields: () },
@@ -132,8 +157,8 @@ pub fn order_of(v: &Value) -> OrderType<()> {
                 side,
                 timestamp,
                 time_in_force,
-                replenish_threshold: u(v, "thr"),
-                replenish_amount: if amt < 0 { None } else { Some(amt as u64) },
+                replenish_threshold: inq(u(v, "thr")),
+                replenish_amount: if amt < 0 { None } else { Some(inq(amt as u64)) },
                 auto_replenish: v.get("auto").and_then(|x| x.as_bool()).unwrap_or(false),
                 extra_fields: (),
             }
@@ -164,10 +189,10 @@ pub fn order_json(o: &OrderType<()>) -> Value {
         })),
         OrderType::MarketToLimit { .. } => ("MarketToLimit", 0, -1, false, tif),
         OrderType::ReserveOrder { replenish_threshold, replenish_amount, auto_replenish, .. } => {
-            ("Reserve", sint(*replenish_threshold), replenish_amount.map(sint).unwrap_or(-1), *auto_replenish, tif)
+            ("Reserve", sq(*replenish_threshold), replenish_amount.map(sq).unwrap_or(-1), *auto_replenish, tif)
         }
     };
-    json!({"id": id_num(&o.id()), "kind": kind, "vis": sint(o.visible_quantity()), "hid": sint(o.hidden_quantity()),
+    json!({"id": id_num(&o.id()), "kind": kind, "vis": sq(o.visible_quantity()), "hid": sq(o.hidden_quantity()),
            "thr": thr, "amt": amt, "auto": auto, "ts": sint(o.timestamp()), "side": side_str(o.side()),
            "px": sint(o.price()), "par": par})
 }
@@ -229,7 +254,7 @@ pub fn tickets_json(l: &PriceLevel) -> Value {
 
 pub fn agg_json(l: &PriceLevel) -> Value {
     let (v, h, c) = l.verif_peek();
-    json!([sint(v), sint(h), sint_usize(c)])
+    json!([sq(v), sq(h), sint_usize(c)])
 }
 
 /// Full projected state of a level (no events are generated: peeks only), plus, when `api`
@@ -238,21 +263,22 @@ pub fn state_json(l: &PriceLevel, gen: Option<&UuidGenerator>, api: bool) -> Val
     let (v, h, c) = l.verif_peek();
     let s = l.stats();
     let mut st = json!({
-        "vis": sint(v), "hid": sint(h), "cnt": sint_usize(c),
+        "vis": sq(v), "hid": sq(h), "cnt": sint_usize(c),
         "orders": map_json(l), "tickets": tickets_json(l),
         "st": {"added": sint_usize(s.orders_added.peek()), "removed": sint_usize(s.orders_removed.peek()),
-               "exec": sint_usize(s.orders_executed.peek()), "qty": sint(s.quantity_executed.peek()),
-               "val": sint(s.value_executed.peek())},
+               "exec": sint_usize(s.orders_executed.peek()), "qty": sq(s.quantity_executed.peek()),
+               "val": sq(s.value_executed.peek())},
         "gen": gen.map(|g| sint(g.verif_counter().0)).unwrap_or(0),
     });
     if api {
         let listing: Vec<Value> = l.iter_orders().iter().map(|o| order_json(o)).collect();
-        let tot = l.visible_quantity().wrapping_add(l.hidden_quantity());
-        st["api"] = json!({"vis": sint(l.visible_quantity()), "hid": sint(l.hidden_quantity()),
-                           "cnt": sint_usize(l.order_count()), "tot": sint(tot), "price": sint(l.price()),
+        // the library's own total_quantity() (a panic in it is a wrapped / impossible total)
+        let tot = std::panic::catch_unwind(std::panic::AssertUnwindSafe(|| l.total_quantity())).map(sq).unwrap_or(-CLAMP + 9);
+        st["api"] = json!({"vis": sq(l.visible_quantity()), "hid": sq(l.hidden_quantity()),
+                           "cnt": sint_usize(l.order_count()), "tot": tot, "price": sint(l.price()),
                            "list": listing,
                            "sadded": sint_usize(s.orders_added()), "sremoved": sint_usize(s.orders_removed()),
-                           "sqty": sint(s.quantity_executed()), "sval": sint(s.value_executed())});
+                           "sqty": sq(s.quantity_executed()), "sval": sq(s.value_executed())});
     }
     st
 }
